@@ -56,6 +56,10 @@ pub fn reply_kinds() -> Vec<(String, Vec<u8>, bool)> {
     v.push(("unknown".into(), ref_encode(3, 9, &[1, 2], true), false));
     v.push(("foreign report PageShowInProgress".into(), ref_encode(0xABCD, 4, &[0x11], true), true));
     v.push(("data chunk as reply".into(), ref_encode(0, 0, &[0x5A; 16], true), false));
+    // controller-originated frames coming back (an adapter echoing the request)
+    v.push(("echo hello".into(), ref_encode(3, 2, &[0xFF], true), false));
+    v.push(("echo query".into(), ref_encode(3, 2, &[0x00], true), false));
+    v.push(("echo request".into(), ref_encode(3, 3, &[0xA9], true), false));
     v
 }
 
@@ -89,11 +93,12 @@ fn judge(run: &SerialRun, pair: &[(&Message<'static>, &(String, Vec<u8>, bool))]
             return out;
         }
         if ex.result.is_err() {
-            out.push(("setup", "exchange-error".into(), format!("{} -> {:?}", msg_str(m), ex.result)));
-            return out;
+            continue; // an exchange that failed (e.g. no reply line left) is not C18's business
         }
         let is_chunk = matches!(m, Message::SendData(..));
-        let got_inprogress = reply_due(m) && r.2;
+        let _ = r.2;
+        // what was actually returned decides, not what the harness meant to send
+        let got_inprogress = matches!(ex.result, Ok(Some(Message::ReportState(_, State::PageLoadInProgress | State::PageShowInProgress))));
         let last_write = ex.events.iter().rposition(|e| matches!(e, Ev::Write { .. }));
         let last_read = ex.events.iter().rposition(|e| matches!(e, Ev::Read { .. }));
         let kind = match m {
@@ -116,13 +121,13 @@ fn judge(run: &SerialRun, pair: &[(&Message<'static>, &(String, Vec<u8>, bool))]
             let prev_is_chunk = i > 0 && matches!(pair[i - 1].0, Message::SendData(..));
             let total = sleeps_between(&ex.events, first_write, n) + if prev_is_chunk { Duration::ZERO } else { sleeps_between(&ex.events, 0, first_write) };
             if is_chunk && i + 1 < run.exchanges.len() && after_write < CHUNK_PAUSE {
-                out.push(("30ms-after-data-chunk", kind.clone(), format!("{}: only {:?} of pause between the chunk's last port write and the next message's first port write", msg_str(m), after_write)));
+                out.push(("30ms-after-data-chunk", kind.clone(), format!("#{} {}: only {:?} of pause between the chunk's last port write and the next message's first port write", i, msg_str(m), after_write)));
             }
             if got_inprogress && after_read < PROGRESS_PAUSE {
-                out.push(("100ms-after-in-progress-report", format!("{}:{}", kind, r.0.replace(' ', "-")), format!("{} answered by {}: only {:?} of pause between reading the report and returning", msg_str(m), r.0, after_read)));
+                out.push(("100ms-after-in-progress-report", format!("{}:{}", kind, r.0.replace(' ', "-")), format!("#{} {} answered by {:?}: only {:?} of pause between reading the report and returning", i, msg_str(m), ex.result.as_ref().ok().and_then(|o| o.as_ref()).map(|x| msg_str(x)), after_read)));
             }
             if !is_chunk && !got_inprogress && total >= CHUNK_PAUSE {
-                out.push(("others-not-delayed", format!("{}:{}", kind, if reply_due(m) { r.0.replace(' ', "-") } else { "no-reply".into() }), format!("{} (reply {}): paused {:?} although neither pacing rule applies", msg_str(m), if reply_due(m) { &r.0 } else { "none" }, total)));
+                out.push(("others-not-delayed", format!("{}:{}", kind, if reply_due(m) { r.0.replace(' ', "-") } else { "no-reply".into() }), format!("#{} {} (reply {}): paused {:?} although neither pacing rule applies", i, msg_str(m), if reply_due(m) { &r.0 } else { "none" }, total)));
             }
         }
     }
@@ -142,7 +147,7 @@ fn real_measure(pair: &[(&Message<'static>, &(String, Vec<u8>, bool))]) -> Optio
     let t_start = std::time::Instant::now();
     let run = serial_run(&msgs, tape, vec![], vec![], RAns::Eof, false);
     let _ = t_start;
-    if !run.setup_ok || run.exchanges.len() != pair.len() || run.exchanges.iter().any(|e| e.result.is_err()) {
+    if !run.setup_ok || run.exchanges.len() != pair.len() {
         return None;
     }
     let mut out = vec![];
@@ -150,7 +155,9 @@ fn real_measure(pair: &[(&Message<'static>, &(String, Vec<u8>, bool))]) -> Optio
     for (i, ex) in run.exchanges.iter().enumerate() {
         let io_events: Vec<&Ev> = ex.events.iter().filter(|e| matches!(e, Ev::Read { .. } | Ev::Write { .. })).collect();
         if io_events.len() != ex.stamps.len() || io_events.is_empty() {
-            return None;
+            out.push((f64::MAX, f64::MAX, f64::MAX));
+            prev_return = Some(ex.returned_at);
+            continue;
         }
         let lw = io_events.iter().rposition(|e| matches!(e, Ev::Write { .. })).map(|k| ex.stamps[k]);
         let lr = io_events.iter().rposition(|e| matches!(e, Ev::Read { .. })).map(|k| ex.stamps[k]);
@@ -168,7 +175,7 @@ fn confirm_real(m1: &Message<'static>, r1: &(String, Vec<u8>, bool), m2: &Messag
     let pair = [(m1, r1), (m2, r2)];
     let mut confirmed = vec![];
     for (clause, class, detail) in cands {
-        let which = if detail.starts_with(&msg_str(m1)) { 0 } else { 1 };
+        let which = if detail.starts_with("#1 ") { 1 } else { 0 };
         match clause {
             "30ms-after-data-chunk" => {
                 if let Some(ms) = real_measure(&pair) {
@@ -237,7 +244,7 @@ fn case_json(m1: &Message<'static>, r1: &(String, Vec<u8>, bool), m2: &Message<'
 pub fn run(ctx: &Ctx) -> Report {
     let mut rep = Report::new(ctx);
     rep.rule = "virtual clock: every ordered pair (m1, m2) of 47 message kinds (4 data-chunk shapes incl. empty/1/255 bytes, count, hello, query, goodbye, pixels-complete, 2 unknown, 6 requests, 6 acks, 13 reports) \
-                sent through one real SerialSignBus; for each message that expects a reply, every reply kind (13 states, 6 acks, unknown frame, foreign in-progress report, data chunk) is offered for m1 (m2 gets a neutral and an in-progress reply). \
+                sent through one real SerialSignBus; for each message that expects a reply, every reply kind (13 states, 6 acks, unknown frame, foreign in-progress report, data chunk, 3 echoed controller frames) is offered for m1 AND for m2 (all combinations), and whether the 100 ms rule applies is decided by the message the bus actually returned. \
                 The event log of port writes, port reads and pauses is judged. Every candidate violation is re-measured on the real clock and reported only if the real clock agrees. \
                 Real-clock pass: every message kind and every reply kind once, lower bounds asserted, unpaced exchanges by the minimum over 5 repetitions. Non-trivial = exchanges with a data chunk or an in-progress reply involved; distinct by pair index"
         .into();
@@ -251,14 +258,17 @@ pub fn run(ctx: &Ctx) -> Report {
     for i1 in 0..ks.len() {
         let r1s: Vec<usize> = if reply_due(&ks[i1]) { (0..rk.len()).collect() } else { vec![neutral] };
         for i2 in 0..ks.len() {
+            // every reply kind for the first message; for the second one every reply kind too when it expects a reply
+            // (state carried from the first exchange must not change how the second reply is paced)
+            let r2s: Vec<usize> = if reply_due(&ks[i2]) { (0..rk.len()).collect() } else { vec![neutral] };
             for &r1 in &r1s {
-                jobs.push((i1, r1, i2, neutral));
-                if reply_due(&ks[i2]) && r1 == r1s[0] {
-                    jobs.push((i1, r1, i2, inprog));
+                for &r2 in &r2s {
+                    jobs.push((i1, r1, i2, r2));
                 }
             }
         }
     }
+    let _ = inprog;
     let accs = par_range(jobs.len() as u64, 64, || (Acc::default(), 0u64), |st, i| {
         let (acc, unconfirmed) = st;
         let (i1, r1, i2, r2) = jobs[i as usize];
